@@ -47,6 +47,7 @@ type Explorer struct {
 	started bool
 	done    bool
 	fixed   int // replay-only prefix length that is never backtracked (Replay mode)
+	subtree bool // explore every extension of the fixed prefix
 
 	// accounting
 	Executions   int64
@@ -67,6 +68,47 @@ func NewReplay(vec []int) *Explorer {
 	return e
 }
 
+// NewSubtree returns an explorer over every vector that extends prefix (the
+// prefix itself is never backtracked). Together with Probe it partitions a
+// bounded tree into independent units: every vector other than the all-default
+// one has a unique first non-default position i and alternative a, i.e. lies
+// in exactly one subtree with prefix 0^i a.
+func NewSubtree(bound int, prefix []int) *Explorer {
+	e := &Explorer{Bound: bound, subtree: true}
+	for _, c := range prefix {
+		e.stack = append(e.stack, point{n: -1, choice: c})
+	}
+	e.fixed = len(prefix)
+	return e
+}
+
+// PointInfo describes one choice point of the last execution.
+type PointInfo struct {
+	N     int
+	Label string
+	Costs []int // nil: every non-default alternative costs 1
+}
+
+// Points returns the choice points consumed by the current execution.
+func (e *Explorer) Points() []PointInfo {
+	out := make([]PointInfo, e.pos)
+	for i := 0; i < e.pos; i++ {
+		out[i] = PointInfo{e.stack[i].n, e.stack[i].label, e.stack[i].costs}
+	}
+	return out
+}
+
+// Cost returns the cost of alternative a of the point.
+func (p PointInfo) Cost(a int) int {
+	if a == 0 {
+		return 0
+	}
+	if p.Costs == nil {
+		return 1
+	}
+	return p.Costs[a]
+}
+
 // Next prepares the next execution. It returns false when the space is
 // exhausted. Call it before every execution, including the first.
 func (e *Explorer) Next() bool {
@@ -78,7 +120,7 @@ func (e *Explorer) Next() bool {
 		e.pos = 0
 		return true
 	}
-	if e.fixed > 0 {
+	if e.fixed > 0 && !e.subtree {
 		e.done = true
 		return false
 	}
@@ -91,7 +133,7 @@ func (e *Explorer) Next() bool {
 	// unless the body stopped early on purpose (Abort).
 	e.stack = e.stack[:e.pos]
 	// backtrack
-	for i := len(e.stack) - 1; i >= 0; i-- {
+	for i := len(e.stack) - 1; i >= e.fixed; i-- {
 		p := &e.stack[i]
 		used := 0
 		if e.Bound >= 0 {
@@ -131,6 +173,7 @@ func (e *Explorer) choose(n int, costs []int, label string) int {
 		if p.n == -1 { // replay vector
 			p.n = n
 			p.label = label
+			p.costs = costs
 			if p.choice >= n {
 				panic(Divergence{fmt.Sprintf("point %d (%s): recorded choice %d but only %d alternatives", e.pos, label, p.choice, n)})
 			}
@@ -206,4 +249,28 @@ func (e *Explorer) Trace() string {
 		fmt.Fprintf(&sb, "%s=%d/%d", e.stack[i].label, e.stack[i].choice, e.stack[i].n)
 	}
 	return sb.String()
+}
+
+// Units partitions the tree of a body into independent subtrees for sharding:
+// it runs the all-default execution once (exec must run the body with the
+// given explorer and call EndExecution) and returns one prefix per unit — the
+// complete default vector (a unit of exactly one execution) and, for every
+// point i and non-default alternative a whose cost fits the bound, 0^i a.
+func Units(bound int, exec func(*Explorer)) [][]int {
+	e := New(0)
+	e.Next()
+	exec(e)
+	pts := e.Points()
+	units := [][]int{make([]int, len(pts))}
+	for i, p := range pts {
+		for a := 1; a < p.N; a++ {
+			if bound >= 0 && p.Cost(a) > bound {
+				continue
+			}
+			u := make([]int, i+1)
+			u[i] = a
+			units = append(units, u)
+		}
+	}
+	return units
 }
